@@ -60,6 +60,8 @@ Fresh == [
   inwake |-> 0,        \* child-waker calls in flight
   indrop |-> FALSE,    \* inside the drop of the collection
   dead   |-> FALSE,    \* collection dropped
+  poison |-> FALSE,    \* a child's destructor panicked: the properties do not speak about what follows, except exactly-once dropping
+  unw    |-> FALSE,    \* a panic raised by a child's destructor is unwinding through the crate
   qn     |-> 0,        \* C14: consecutive noisy Pending polls in a quiet phase
   act    |-> FALSE,    \* C14: a child waker was invoked / a child finished / upstream moved during this poll
   allocs |-> 0, peak |-> 0, ctor |-> FALSE,
@@ -70,7 +72,7 @@ Fresh == [
   viol   |-> {}
 ]
 
-V(s, p, why) == [s EXCEPT !.viol = @ \cup {<<p, why>>}]
+V(s, p, why) == IF s.poison /\ p # "C06" THEN s ELSE [s EXCEPT !.viol = @ \cup {<<p, why>>}]
 Chk(s, ok, p, why) == IF ok THEN s ELSE V(s, p, why)
 
 Held(s)  == {c \in DOMAIN s.ch : s.ch[c].st = "held"}
@@ -216,7 +218,7 @@ StepOdrop(s, e) ==
   LET t == <<e.c, e.k>> IN
   IF t \in s.out THEN [s EXCEPT !.out = @ \ {t}]
   ELSE IF t \in s.tok
-       THEN LET s1 == Chk(s, s.indrop \/ (s.kind = "tja" /\ s.firstErr # 0), IF s.kind \in CollKinds THEN "C02" ELSE "C06",
+       THEN LET s1 == Chk(s, s.indrop \/ s.unw \/ (s.kind = "tja" /\ s.firstErr # 0), IF s.kind \in CollKinds THEN "C02" ELSE "C06",
                           "an output that was never handed out was destroyed while the collection is alive")
             IN [s1 EXCEPT !.tok = @ \ {t}]
        ELSE V(s, "C06", "output dropped twice (or never produced)")
@@ -269,7 +271,7 @@ Yield(s, c, k) ==
                            IF ord THEN SelectSeq(@, LAMBDA x : x # c) ELSE @]
 
 StepRet(s, e) ==
-  LET s0  == Alloc([s EXCEPT !.inpoll = FALSE, !.lastret = e.res], e.al)
+  LET s0  == Alloc([s EXCEPT !.inpoll = FALSE, !.lastret = e.res, !.unw = FALSE], e.al)
       \* C05: whatever finished during this call has been released by now
       s1  == Chk(s0, \A c \in DOMAIN s0.ch : s0.ch[c].st # "fin", "C05",
                  "a finished child was not dropped before the poll that observed its completion returned")
@@ -298,13 +300,14 @@ StepRet(s, e) ==
 \* --------------------------------------------------------------- drop / end
 StepDropB(s, e) == [s EXCEPT !.indrop = TRUE]
 StepDropE(s, e) ==
-  LET s1 == Chk(s, DOMAIN s.ch = {}, "C06", "a child was not dropped with its collection (leak)")
-      s2 == Chk(s1, s.tok = {}, "C06", "an output owned by the collection was not dropped with it (leak)")
-  IN [s2 EXCEPT !.indrop = FALSE, !.dead = TRUE, !.inpoll = FALSE]
+  \* (after a destructor has panicked, leaking what is left is the safe answer; releasing twice never is)
+  LET s1 == Chk(s, s.poison \/ DOMAIN s.ch = {}, "C06", "a child was not dropped with its collection (leak)")
+      s2 == Chk(s1, s.poison \/ s.tok = {}, "C06", "an output owned by the collection was not dropped with it (leak)")
+  IN [s2 EXCEPT !.indrop = FALSE, !.dead = TRUE, !.inpoll = FALSE, !.unw = FALSE]
 
 StepEnd(s, e) ==
-  LET s1 == Chk(s, DOMAIN s.ch = {} /\ s.pend = {}, "C06", "a child was never dropped (leak)")
-      s2 == Chk(s1, s.tok = {} /\ s.out = {}, "C06", "an output was never dropped (leak)")
+  LET s1 == Chk(s, s.poison \/ (DOMAIN s.ch = {} /\ s.pend = {}), "C06", "a child was never dropped (leak)")
+      s2 == Chk(s1, s.poison \/ (s.tok = {} /\ s.out = {}), "C06", "an output was never dropped (leak)")
   IN s2
 
 StepDrainFail(s, e) ==
@@ -358,6 +361,7 @@ Step(s, e) ==
     [] e.e = "cin"    -> StepCin(s, e)
     [] e.e = "cout"   -> StepCout(s, e)
     [] e.e = "cdrop"  -> StepCdrop(s, e)
+    [] e.e = "dpanic" -> [s EXCEPT !.unw = TRUE, !.poison = TRUE]
     [] e.e = "odrop"  -> StepOdrop(s, e)
     [] e.e = "wake_b" -> StepWakeB(s, e)
     [] e.e = "wake_e" -> StepWakeE(s, e)
@@ -373,6 +377,10 @@ Step(s, e) ==
     [] e.e = "dropc_e"-> StepDropE(s, e)
     [] e.e = "drain_fail" -> StepDrainFail(s, e)
     [] e.e = "end"    -> StepEnd(s, e)
+    \* the harness watchdog: the crate did not come back from a call
+    [] e.e = "hang"   -> IF e.where = "poll" THEN V(s, "C13", "a poll call did not return (unbounded work inside one poll)")
+                         ELSE IF e.where = "drop" THEN V(s, "C06", "dropping the collection did not terminate: its children are never released")
+                         ELSE s
     [] OTHER -> s      \* events of other layers (hook probes, notes) are not this machine's business
 
 RECURSIVE RunFrom(_, _, _)
